@@ -500,6 +500,9 @@ def flood_runner(seed, tier):
     rng = Rng(seed ^ 0xC0F100D)
     n = 12 if tier == "quick" else 60
     cases = [gen_ctlflood_case(rng, 5000) for _ in range(n)]
+    # ... and the DATA flood family (peer ignores flow control, the application never reads): the bytes the
+    # multiplexer takes off the transport stay within read_buffer_size + the headers of read_frame_count + 1 frames
+    dcases = [gen_flood_case(rng) for _ in range(40 if tier == "quick" else 400)]
     ok, out = common.cargo_build(["mux"], "dev")
     if not ok:
         raise common.MachineryError("cargo build of harness bin mux failed: " + out[-2000:])
@@ -513,8 +516,15 @@ def flood_runner(seed, tier):
                              "failing_input": {"runner": "c14-ctlflood", "case": {k: c[k] for k in c if k != "kind"}, "kind": c["kind"], **b}})
         if "obs" in o:
             taken.append(o["obs"][-1][4])
+    douts = common.run_impl("mux", dcases, "dev", timeout=600)
+    for c, o in zip(dcases, douts):
+        if "crash" in o or "skipped" in o:
+            raise common.MachineryError(f"harness mux crashed on a data flood case: {o}")
+        for b in pred_flood(c, o):
+            failures.append({"what": "mux: " + b["failed"],
+                             "failing_input": {"runner": "c14-dataflood", "case": {k: c[k] for k in c if k != "kind"}, "kind": c["kind"], **b}})
     return {"failures": failures,
-            "coverage": {"cases": len(cases), "frames_pushed_per_case": 5000,
+            "coverage": {"cases": len(cases), "data_flood_cases": len(dcases), "frames_pushed_per_case": 5000,
                          "patterns": sorted({c["flood"]["pattern"] for c in cases}), "targets": sorted({c["flood"]["target"] for c in cases}),
                          "read_frame_count_range": [3, 12], "max_bytes_pulled": max(taken) if taken else 0}}
 
